@@ -68,6 +68,16 @@ def gapEqWB0 : Bool → FT → FT → Bool
     (t1.tok.kind == t2.tok.kind) && (!po || !keepsCur t1.tok.kind || gapEmpty t1 == gapEmpty t2) && gapEqWB0 (isOtherKind t1.tok.kind) r1 r2
   | _, _, _ => false
 
+/-- position `j` is "free": the token follows a line comment that shares its line with code and its own spacing rule
+    can keep the input's spaces (`TokenSpacing` gives it none; the wrapper must break before it and never reads them) -/
+def freeAtB (ft : FT) (j : Nat) : Bool :=
+  decide (j ≥ 1) && ((ft[j - 1]?).map (·.tok.kind) == some (.tComment .cInlineLine)) &&
+    (match ft[j]? with | some t => keepsCur t.tok.kind | none => false)
+
+/-- every free token of `ft1` (the state before the wrapper stage) starts a line in `ftz` (the state after it) -/
+def freeBrokenB (ft1 ftz : FT) : Bool :=
+  ftz.zipIdx.all fun p => !freeAtB ft1 p.2 || decide (p.1.fmt.nl > 0)
+
 /-- the decidable form of `SameLayout` (Proofs/LayoutFull.lean): same scanned types and texts; identical bytes in front
     of a verbatim token; a blank line in front of a token in both layouts or in neither; and `gapEqWB` on the two
     token states -/
@@ -100,12 +110,13 @@ def layoutStatus (cfg : Config) (alnum : Bytes → Bool) (s1 s2 : Bytes) : Strin
       else if !gapEqWB0 false (raw1.zipIdx.map (fun p => preTok po.kinds pw.1 p.2 p.1))
           (raw2.zipIdx.map (fun p => preTok po.kinds pw.1 p.2 p.1)) then "gap-after-literal"
       else if !sameLayoutB po.kinds pw.1 raw1 raw2 then "gap-before-eof"
-      else if !(retype raw1 po.kinds).all (fun t => t.kind != .tComment .cInlineLine) then "inlinecomment"
       else
         match wrapStageFull cfg pw.2.1 pw.2.2 with
         | none => "nostage"
-        | some (_, sols) =>
-          if allWritten pw.2.1 (writtenBefore pw.2.1 pw.2.2) pw.2.2.length sols then "hold" else "unwritten"
+        | some (ftz, sols) =>
+          if !allWritten pw.2.1 (writtenBefore pw.2.1 pw.2.2) pw.2.2.length sols then "unwritten"
+          else if !freeBrokenB pw.2.2 ftz then "continued-after-line-comment"
+          else "hold"
   | _, _ => "nolex"
 
 /-- all premises of the layout theorem hold for the pair -/
@@ -119,10 +130,10 @@ def layoutPremisesB (cfg : Config) (alnum : Bytes → Bool) (s1 s2 : Bytes) : Bo
       (maskFlags false (raw1.map fun t => (t.kind, wsHasBreak t.ws)) ==
           maskFlags false (raw2.map fun t => (t.kind, wsHasBreak t.ws))) &&
       sameLayoutB po.kinds pw.1 raw1 raw2 &&
-      (retype raw1 po.kinds).all (fun t => t.kind != .tComment .cInlineLine) &&
       (match wrapStageFull cfg pw.2.1 pw.2.2 with
         | none => false
-        | some (_, sols) => allWritten pw.2.1 (writtenBefore pw.2.1 pw.2.2) pw.2.2.length sols)
+        | some (ftz, sols) =>
+          allWritten pw.2.1 (writtenBefore pw.2.1 pw.2.2) pw.2.2.length sols && freeBrokenB pw.2.2 ftz)
   | _, _ => false
 
 /-! ### canonical counters after the wrapper stage (C08) -/
